@@ -7,7 +7,7 @@ From Coq Require Import List NArith ZArith Lia Bool Arith ZifyBool ZifyN ZifyNat
 From Coq Require Import Strings.Byte.
 Require Import BS.Bytes BS.Common BS.CommonFacts BS.Api BS.Layout BS.Format BS.FormatFacts BS.Spec BS.SpecStep BS.Sections.
 Require Import BS.FS BS.FSFacts BS.Meta BS.MetaFacts BS.Header BS.Reader BS.ReaderFacts BS.Index BS.Data BS.DataFacts BS.Seek BS.SeekFacts BS.Series.
-Require Import BS.SeriesFacts BS.RangeFacts BS.RangeRead BS.ReadAllFacts BS.ExtractFacts BS.LastMetaFacts BS.HeaderFacts BS.OpenFacts BS.TornFacts BS.TornGenFacts BS.PagingFacts.
+Require Import BS.SeriesFacts BS.RangeFacts BS.RangeRead BS.ReadAllFacts BS.ExtractFacts BS.LastMetaFacts BS.HeaderFacts BS.OpenFacts BS.TornFacts BS.TornGenFacts BS.PagingFacts BS.World.
 Import ListNotations.
 Close Scope N_scope. Open Scope nat_scope.
 
@@ -43,3 +43,22 @@ Proof.
   - destruct (read_all_ok fs' s p _ _ l R Unb Unb) as [RA|[SE RA]]; rewrite select_unb in *; [left; exact RA|right; split; assumption].
 Qed.
 End Conform.
+
+(* ---- the known finding D18 as a witness: a file laid out as documented whose full timestamps were stored EARLIER than the
+   line that follows them (first delta of a section other than 0). The reference decoder reads it as four lines; the model of
+   the library (as the library itself) opens it, returns the right content for a full read, but reports the first full
+   timestamp as the start of the time range and returns lines beyond an end bound that lies before the first line of its
+   section. The same script is corpus/C07/d18_early_full_time.bs, replayed on the implementation on every run. ---- *)
+Definition d18_region : list byte :=
+  enc_section 1 10 ++ enc_line 5 [xaa] ++ enc_line 6 [xbb] ++ enc_section 1 100000 ++ enc_line 7 [xcc] ++ enc_line 9 [xdd].
+Definition d18_ops : list op :=
+  [ONew ["w"]%byte 1 [] [] CbNone; OClose; OFsAppend (["w"]%byte ++ ext_data) d18_region;
+   OOpen ["w"]%byte None HdrAny [] CbNone; OReadAll Unb Unb; ORange; OReadAll Unb (Incl 100003); ONLines Unb (Incl 100003)].
+Lemma d18_refuted :
+  decode 1 d18_region = Some [(15%N, [xaa]); (16%N, [xbb]); (100007%N, [xcc]); (100009%N, [xdd])]
+  /\ skipn 3 (snd (World.run World.init_world d18_ops))
+     = [ROpened 1 []; RLines [(15%N, [xaa]); (16%N, [xbb]); (100007%N, [xcc]); (100009%N, [xdd])];
+        RRange (Some (10%N, 100009%N));
+        RLines [(15%N, [xaa]); (16%N, [xbb]); (100007%N, [xcc]); (100009%N, [xdd])];
+        RNum 8].
+Proof. split; vm_compute; reflexivity. Qed.
